@@ -547,7 +547,7 @@ _add(
 )
 _add(
     "C32",
-    m("gcp-array-index-from-listing-position", "redun/executors/gcp_batch.py", "                for task in batch_tasks:\n", "                for array_index, task in enumerate(batch_tasks):\n", "C32.7"),
+    m("gcp-array-index-from-listing-position", "redun/executors/gcp_batch.py", "                        array_index = int(task.name.rsplit(\"/\", 1)[-1])\n", "                        array_index = list(batch_tasks).index(task)\n", "C32.7"),
 )
 _add(
     "C10",
